@@ -298,7 +298,7 @@ Section Main.
         do st <- add_node st KQuote;
         let st := set_lines_range st lr in
         do inner <- process_blocks dir f bs (B (b_arena st) (b_cur st) true []);
-        Ok (B (b_arena inner) (b_cur st) (b_insert st) (b_map st))
+        Ok (B (b_arena inner) (b_cur st) (b_insert st) (b_map st ++ b_map inner))
     | DRule lr => do st <- add_node st KRule; Ok (set_lines_range st lr)
     | DHeader _ _ _ => Panic "Unexpected block type, headers should be process outside of this block"
     | DTable lr h al rows =>
